@@ -4,16 +4,25 @@ set -e
 cd "$(dirname "$0")"
 export GOFLAGS=-mod=mod GOPROXY=off GOSUMDB=off GOTOOLCHAIN=local
 python3 - <<'PY'
-import glob, os, sys
+import glob, os, shutil, subprocess, sys, tempfile
 sys.path.insert(0, '.')
 from tools import tlc
+# all specification files in one flat scratch directory (modules of one area may EXTEND modules of another)
+d = tempfile.mkdtemp(prefix='vsany-')
+mods = []
+for f in sorted(glob.glob('specs/*/*.tla')):
+    shutil.copy(f, d)
+    mods.append(os.path.basename(f))
 bad = 0
-for d in sorted(glob.glob('specs/*')):
-    for f in sorted(glob.glob(os.path.join(d, '*.tla'))):
-        ok, out = tlc.sany(d, os.path.basename(f))
-        print(('ok   ' if ok else 'FAIL ') + f)
-        if not ok:
-            print(out[-2000:]); bad += 1
+for m in mods:
+    needs_input = 'ndJsonDeserialize' in open(os.path.join(d, m)).read()
+    p = subprocess.run(['java', '-cp', tlc.JAR, 'tla2sany.SANY', m], cwd=d, stdout=subprocess.PIPE, stderr=subprocess.STDOUT, text=True)
+    ok = p.returncode == 0 and 'Semantic errors' not in p.stdout and '*** Errors' not in p.stdout and 'Fatal errors' not in p.stdout \
+        and 'Parse Error' not in p.stdout
+    print(('ok   ' if ok else 'FAIL ') + m)
+    if not ok:
+        print(p.stdout[-1500:]); bad += 1
+shutil.rmtree(d, ignore_errors=True)
 sys.exit(1 if bad else 0)
 PY
 cp /repo/go.sum harness/go.sum
